@@ -867,7 +867,8 @@ def build_tiled_case(ctx, idx):
               dimension_organization_type='TILED_FULL' if tiled_full else 'TILED_SPARSE')
     if from_volume:
         g = rand_geom(r, 0.1)
-        descr.update(dir=g['label'], h=g['h'], exact=g['exact'], spacing=[rstr(x) for x in g['s']], position=[rstr(x) for x in g['p']])
+        descr.update(dir=g['label'], h=g['h'], exact=g['exact'], spacing=[rstr(x) for x in g['s']], position=[rstr(x) for x in g['p']],
+                     directions=[[rstr(x) for x in _col(g['d'], j)] for j in range(3)])
         vol = hd.Volume(mask.copy(), affine_of(g), coordinate_system='SLIDE', frame_of_reference_uid=src.FrameOfReferenceUID)
         a = frac_affine(affine_of(g))
         geo = (_col(g['d'], 2), _col(g['d'], 1), (g['s'][1], g['s'][2]), [(apply_aff(a, (0, 0, 0)), mask[0].astype(np.int64))])
@@ -930,6 +931,11 @@ def check_tiled_case(ctx, descr, geo, mask, mk, reqs, pending):
                      site='stored-measures/tiled')
         reqs.append(model_tiled_req(origin, ios, psx, sbs, descr['total'][0], descr['total'][1], None))
         pending.append((dict(descr, what='tiled get_volume affine/shape', layer='L0'), impl_volume_obs(stv, v)))
+        if descr['from_volume']:
+            reqs.append(('storeTiled', {'d': descr['directions'], 's': descr['spacing'], 'p': descr['position']}))
+            pending.append((dict(descr, what='stored total-pixel-matrix origin/orientation/measures', layer='L1'),
+                            ('ok', {'origin': [rstr(x) for x in origin], 'ios': [rstr(x) for x in ios], 'ps': [rstr(x) for x in psx],
+                                    'sbs': None if sbs is None else rstr(sbs)})))
     for j in range(3):
         req = rand_request(r, v.spatial_shape)
         sts, sub, exp = check_subvolume(ctx, descr, seg.get_volume, v, req, exact, kw=kw, site='get_volume/tiled', empty_rc_free=True)
